@@ -29,6 +29,10 @@ func c09CfgFor(fault string) *DeclCfg {
 		cfg.Types = append(cfg.Types, TypeSpec{K: KBool}, TypeSpec{K: KBool})
 	case "bad-choice":
 		cfg.PChoices = 60
+	case "callback-error":
+		cfg.Types = append(cfg.Types, TypeSpec{W: WFunc0Err}, TypeSpec{W: WFunc0Err}, TypeSpec{K: KString, W: WFunc1Err}, TypeSpec{K: KInt, W: WFunc1Err})
+	case "bad-env-choice":
+		cfg.PChoices = 60
 	case "bad-positional":
 		cfg.PPos, cfg.PCmds = 90, 50
 		cfg.PosTypes = []TypeSpec{{K: KInt}, {K: KInt}, {K: KFloat64}, {K: KDuration}, {K: KString}}
@@ -45,7 +49,7 @@ func c09CfgFor(fault string) *DeclCfg {
 	return cfg
 }
 
-var c09Faults = []string{"none", "unknown-option", "bad-value", "missing-argument", "flag-with-argument", "drop-required-option", "drop-required-positional", "unknown-command", "missing-command", "help", "help-in-cluster", "bad-choice", "exec-error", "completion", "bad-positional"}
+var c09Faults = []string{"none", "unknown-option", "bad-value", "missing-argument", "flag-with-argument", "drop-required-option", "drop-required-positional", "unknown-command", "missing-command", "help", "help-in-cluster", "bad-choice", "exec-error", "completion", "bad-positional", "callback-error", "bad-env-value", "bad-env-choice"}
 
 type hostHandlers struct {
 	handlerErr error
@@ -365,6 +369,59 @@ func injectFault(c *Ctx, r *Rand, d *Decl, sc *Scenario, fault string) (items []
 		}
 		pos = at
 		wantType = flags.ErrUnknown // any non-nil error: positional conversion errors are raw errors
+	case "callback-error":
+		// a callback option whose function returns an ordinary error: reported as ErrMarshal naming the flag
+		var cands []*Opt
+		for _, o := range scopeAt.Addressable(d) {
+			if (o.T.W == WFunc0Err || o.T.W == WFunc1Err) && sc.Exp.Seen[o] == 0 {
+				cands = append(cands, o)
+			}
+		}
+		if len(cands) == 0 {
+			c.Unspec("no option for fault " + fault)
+			return nil, 0, 0, 0, false, false
+		}
+		o := cands[r.Intn(len(cands))]
+		o.CallbackErr = true
+		var tok string
+		if o.Long != "" && scopeAt.Long[d.FullLong(o)] == o {
+			tok = "--" + d.FullLong(o)
+		} else {
+			tok = "-" + string(o.Short)
+		}
+		if o.T.W == WFunc1Err {
+			tok += "=" + GenScalarTextSimple(r, o)
+		}
+		items = insert(&Item{Kind: IFault, Toks: []string{tok}, Note: fault})
+		wantType = flags.ErrMarshal
+	case "bad-env-value", "bad-env-choice":
+		// a bad value that arrives through an environment variable (any option of the parser, selected or not)
+		if c.W.Tier == "race" {
+			c.Unspec("environment faults are not run concurrently")
+			return nil, 0, 0, 0, false, false
+		}
+		var cands []*Opt
+		for _, o := range d.Opts {
+			if o.T.IsFunc() || o.T.IsFlag() || sc.Exp.Seen[o] > 0 || o.T.W == WMap {
+				continue
+			}
+			if fault == "bad-env-choice" && len(o.Choices) > 0 {
+				cands = append(cands, o)
+			}
+			if fault == "bad-env-value" && len(o.Choices) == 0 && (isIntKind(o.T.K) || o.T.K == KFloat64 || o.T.K == KDuration) {
+				cands = append(cands, o)
+			}
+		}
+		if len(cands) == 0 {
+			c.Unspec("no option for fault " + fault)
+			return nil, 0, 0, 0, false, false
+		}
+		o := cands[r.Intn(len(cands))]
+		o.Env = fmt.Sprintf("VH_%s_%d", c.P.ID, c.K)
+		os.Setenv(o.Env, map[string]string{"bad-env-value": "!!bad", "bad-env-choice": "not-a-choice"}[fault])
+		key := o.Env
+		c.Defer(func() { os.Unsetenv(key) })
+		wantType = map[string]flags.ErrorType{"bad-env-value": flags.ErrMarshal, "bad-env-choice": flags.ErrInvalidChoice}[fault]
 	case "missing-argument":
 		var cands []*Opt
 		for _, o := range d.ScopeOf(sc.Final).Addressable(d) {
